@@ -159,17 +159,31 @@ func VerifH_C10_Close() {
 func VerifH_C10_Retry() {
 	b := &vbroker{budget: verifParam("faults", 1)}
 	b.maxDials = 6
+	// sessloss=1: the broker does not keep the session, so every reconnect re-subscribes (Resubscribe is
+	// called by the reconnect loop's goroutine while the task goroutine may be carrying out a Subscribe)
+	b.sessionLoss = verifParam("sessloss", 0) == 1
 	verifSetRand(100)
 	unit := time.Second
 	if !verifSymbolic() {
 		unit = time.Millisecond
 	}
-	variant := verifChoice("variant", 4) // 0 Stats/Client/Err, 1 direct QoS 0 publish, 2 Handle, 3 Ping
+	variant := verifParam("onlyvariant", -1) // 0 Stats/Client/Err, 1 direct QoS 0 publish, 2 Handle, 3 Ping, 4 Subscribe + Unsubscribe at any point, 5 Subscribe + Unsubscribe during a re-dial
+	if variant < 0 {
+		variant = verifChoice("variant", verifParam("nvariants", 4))
+	}
 	rc := &RetryClient{}
 	rc.DirectlyPublishQoS0 = variant == 1
 	cli, err := NewReconnectClient(b, WithReconnectWait(unit, 4*unit), WithTimeout(100*unit), WithRetryClient(rc))
 	verifAssert(err == nil, "C10.new_client")
 	ctx := context.Background()
+	if variant == 5 {
+		// requests submitted while a re-dial is in progress: they are carried out on the new connection,
+		// by the task goroutine, while the reconnect loop's goroutine re-subscribes and retries
+		b.onRedial = func() {
+			cli.Subscribe(ctx, Subscription{Topic: "sb", QoS: QoS1})
+			cli.Unsubscribe(ctx, "sa")
+		}
+	}
 	go func() {
 		cli.Publish(ctx, &Message{Topic: "a", QoS: QoS1, Payload: []byte{1}})
 		cli.Subscribe(ctx, Subscription{Topic: "sa", QoS: QoS1})
@@ -208,6 +222,9 @@ func VerifH_C10_Retry() {
 				go func() { verifPause(); cancel() }()
 				cli.Ping(pctx)
 			}
+		case 4:
+			cli.Subscribe(ctx, Subscription{Topic: "sb", QoS: QoS1})
+			cli.Unsubscribe(ctx, "sa")
 		}
 	}()
 	_, _ = cli.Connect(ctx, "cid", WithCleanSession(false))
@@ -216,6 +233,12 @@ func VerifH_C10_Retry() {
 		verifReach("end")
 		_ = cli.Stats()
 	})
+	if variant == 5 {
+		// once everything has settled the broker closes the idle connection: nothing is pending when the
+		// re-dial starts, so the requests submitted during it are carried out directly on the new connection
+		verifPause()
+		b.cutIdle()
+	}
 }
 
 // P7: two QoS 2 publishes ‖ each other ‖ the reader goroutine routing PUBREC / PUBCOMP.  The two flows use
